@@ -360,6 +360,7 @@ func C05(run *core.Run) {
 		run.AddSample(events[len(events)-1])
 	}
 	c05Mutations(run, p, all)
+	c05OwnProduction(run, p)
 	run.Finish()
 }
 
@@ -454,4 +455,42 @@ func c05Mutations(run *core.Run, p *node.Node, all []*nom.DetailedMomentum) {
 	}
 	node.Clock.Set(p.Frontier().Timestamp.Add(time.Hour))
 	run.Set("momentum_mutations", outcomes)
+}
+
+// c05OwnProduction: the acceptance guard holds for what a pillar node produces itself as well. A pillar of the node is handed a
+// producer event for a slot it is not elected for (an event stream computed before a reorganisation, a stale tick): the node's
+// chain must not grow by a momentum of a pillar that the ledger did not elect for that slot.
+func c05OwnProduction(run *core.Run, p *node.Node) {
+	tried := 0
+	for k := 0; k < 6; k++ {
+		prev := p.Frontier()
+		t := prev.Timestamp.Add(time.Duration(10*(1+k%2)) * time.Second)
+		node.Clock.Set(t)
+		elected, err := p.Cons.GetMomentumProducer(t)
+		if err != nil || elected == nil {
+			core.Fatal("own production: %v", err)
+		}
+		for _, pl := range p.Pillars {
+			if *pl.GetCoinBase() == *elected {
+				continue
+			}
+			tried++
+			task := pl.Process(consensus.ProducerEvent{Producer: *pl.GetCoinBase(), StartTime: t, EndTime: t.Add(10 * time.Second)})
+			if task != nil {
+				task.Wait()
+			}
+			if fr := p.Frontier(); fr.Hash != prev.Hash {
+				run.Report("C05:own-momentum-of-a-pillar-not-elected-for-the-slot-accepted", fmt.Sprintf("pillar %v, handed a producer event for the slot at %v for which the ledger elects %v, produced momentum %d and the node accepted it", pl.GetCoinBase(), t.Unix(), elected, fr.Height),
+					map[string]interface{}{"kind": "own-production", "slot": t.Unix()})
+				return
+			}
+			break
+		}
+		// the elected pillar's momentum is accepted: the chain goes on for the next round
+		if err := p.Produce(0); err != nil {
+			core.Fatal("own production: %v", err)
+		}
+	}
+	run.Count("own_production_attempts_by_a_pillar_not_elected", int64(tried))
+	run.Traces += int64(tried)
 }
